@@ -86,6 +86,8 @@ def parse_tags(exc, trig) -> list:
 def statement_cause(causes) -> list:
     """Attribution of a differing honoured result: the known cause of a scan whose offered filter is unsafe (by precedence)."""
     found = {c for entries in causes for c in shapes.unsafe_cause(entries)}
+    if any('mixed-table-ref' in entries for entries in causes):
+        found.add('mixed-table-ref')  # a filter over foreign elements is never a filter of the table, whatever else is offered
     for cause in shapes.CAUSES:
         if cause in found:
             return [cause]
@@ -243,6 +245,7 @@ def _judge_meta(ctx, spec, stmt, statement, data, trig, reasons, direct_exc, tag
             ctx.fail_exc(spec, f'honour-{mode}-parse', exc, parse_tags(exc, trig))
     judged = False
     ref = None
+    edep = shapes.engine_dependent(stmt) & {'cast', 'year', 'floor-ceil', 'big-arith'}
     if 'limit' in tags:  # a limit may legitimately pick other rows when the scan order changes
         try:
             ref = refeval.evaluate(stmt, data)
@@ -271,6 +274,9 @@ def _judge_meta(ctx, spec, stmt, statement, data, trig, reasons, direct_exc, tag
                 # a missing column / a filter over foreign elements surfaces in engine specific ways (no such column,
                 # lateral reference, struct field extraction ...): attributed through the direct analysis
                 cause = sorted(reasons) if mode == 'columns' else sorted(trig & {'mixed-table-ref'})
+                if not cause and edep:
+                    out.append('meta:engine-dependent-error')  # e.g. SQLite's python floor() on a NULL the filter now meets
+                    continue
                 kind = 'raises' if cause else f'raises-{slug(exc)}'
                 ctx.fail(spec, f'honour-{mode}', kind, f'{eng.name}: {" ".join(str(exc).split())[:300]} sql={sel}', cause)
                 continue
